@@ -163,6 +163,9 @@ func (pk *PublicKey[PKV, S]) UnmarshalCBOR(data []byte) error {
 	if err != nil {
 		return errs.Wrap(err).WithMessage("failed to unmarshal schnorrlike public key")
 	}
+	if dto == nil {
+		return signatures.ErrInvalidArgument.WithMessage("PublicKey DTO is nil")
+	}
 	pk2, err := NewPublicKey(dto.PK)
 	if err != nil {
 		return errs.Wrap(err).WithMessage("failed to validate deserialized public key")
